@@ -462,7 +462,6 @@ UNDECIDABLE_SEEDS = (
     "C14d",   # vendored euler_from_matrix edited: summary must be re-derived
     "C07j",   # EuRoC stamps parsed with integer arithmetic in a new helper
     "C13j",   # per-array merge strategy table
-    "C15i",   # inversion moved into load_transform(invert=...) (analytic)
     "C14k",   # vendored euler_from_matrix edited (assumption A4, as C14d)
     "C14p",   # same: middle angle rewritten with asin / acos
 )
